@@ -78,6 +78,10 @@ def t_str(t, depth=0):
         return '{' + ' | '.join(sorted(t_str(x, d) for x in t[1])) + '}'
     if k == 'mut':
         return 'mut(%s <- %s)' % (t_str(t[1], d), t_str(t[2], d))
+    if k == 'elem':
+        return 'elem<%s>' % t_str(t[1], d)
+    if k == 'count':
+        return 'count<%s>' % t_str(t[1], d)
     return str(t)
 
 
@@ -109,6 +113,8 @@ def children(t):
         return tuple(t[1])
     if k == 'mut':
         return (t[1], t[2])
+    if k in ('elem', 'count'):
+        return (t[1],)
     return ()
 
 
